@@ -935,7 +935,7 @@ pub fn gen(out: &mut Out, _sub: &str) {
     let mut g = Gen {
         out,
         rng: Rng::new(seed ^ 0x0000_5802),
-        exh_budget: if thorough { i64::MAX } else { 24 },
+        exh_budget: if thorough { i64::MAX } else { 14 },
         exh_events: 0,
         exh_valuations: 0,
         list_events: 0,
@@ -982,7 +982,9 @@ pub fn gen(out: &mut Out, _sub: &str) {
     }
     pool.extend(core.v.iter().cloned());
     // ---- nested two levels: wrapped leaves and parents of the shapes above --------------------------
-    let n_nested = g.out.size(700, 12000);
+    // (from here on the number of events for which TLC enumerates 65536 valuations is budgeted per section)
+    g.exh_budget = if thorough { 200 } else { 4 };
+    let n_nested = g.out.size(700, 9000);
     for i in 0..n_nested {
         let (f, e) = g.rng.pick(&pool).clone();
         if e.recursion_depth() > 4 || u64::from(e.bytesize()) > 8 {
@@ -1001,7 +1003,8 @@ pub fn gen(out: &mut Out, _sub: &str) {
         }
     }
     // ---- random typed expressions (the C10 generator) --------------------------------------------
-    let n_random = g.out.size(300, 6000);
+    g.exh_budget = if thorough { 20 } else { 1 };
+    let n_random = g.out.size(300, 4000);
     let mut ctx = Ctx::default();
     for (n, ty) in [("$U1_8", Ty::Int(8)), ("$U2_4", Ty::Int(4)), ("$U3_b", Ty::Bool), ("$U4_1", Ty::Int(1))] {
         ctx.define(&tmp(n, ty.size()), ty);
@@ -1021,7 +1024,8 @@ pub fn gen(out: &mut Out, _sub: &str) {
         }
     }
     // ---- substitute_input_var ------------------------------------------------------------------------
-    let n_subst = g.out.size(500, 8000);
+    g.exh_budget = if thorough { 120 } else { 3 };
+    let n_subst = g.out.size(500, 5000);
     for i in 0..n_subst {
         let (f, e) = g.rng.pick(&pool).clone();
         let vs = vars_of(&[&e]);
@@ -1062,6 +1066,7 @@ pub fn gen(out: &mut Out, _sub: &str) {
         g.out.emit(vec![ev], nt);
     }
     // ---- builder: plus, plus_const --------------------------------------------------------------------
+    g.exh_budget = if thorough { 40 } else { 2 };
     let cvals: [i64; 16] =
         [0, 1, -1, 2, 127, 128, -128, -129, 255, 256, 0x7fff_ffff, -0x8000_0000, 0x1_0000_0000, i64::MAX, i64::MIN, 0x1234_5678_9abc_def0];
     let mut bases: Vec<Expression> = vec![x(1), bytes_term(2, 0), bytes_term(4, 0), x(2), x(4), x(8), bin(Piece, x(8), y(8)), bin(Piece, x(8), y(4)),
